@@ -127,6 +127,74 @@ def calls_chain(stmts):
     return None
 
 
+SAFE_CALLS = {"add_note", "items", "join", "format", "str", "repr", "type", "len", "info", "debug", "warning", "error", "exception", "warn", "getLogger", "isinstance", "getattr"}
+
+
+def handler_can_only_reraise(h: ast.ExceptHandler):
+    """The statements before the final bare `raise` cannot themselves fail in a way the contracts know of: notes, string formatting, logging,
+    version checks, loops over a mapping's items. Returns the text of the first statement outside that fragment (None: all inside)."""
+    def safe_expr(e):
+        for n in ast.walk(e):
+            if isinstance(n, ast.Call):
+                f = n.func
+                nm = f.id if isinstance(f, ast.Name) else f.attr if isinstance(f, ast.Attribute) else None
+                if nm not in SAFE_CALLS:
+                    return False
+            if isinstance(n, (ast.Await, ast.Yield, ast.YieldFrom, ast.Subscript)) and not isinstance(getattr(n, "ctx", None), ast.Load):
+                return False
+        return True
+
+    def safe_stmt(st):
+        if isinstance(st, ast.Raise):
+            return st.exc is None or True
+        if isinstance(st, ast.Expr):
+            return safe_expr(st.value)
+        if isinstance(st, (ast.Assign, ast.AnnAssign)):
+            tg = st.targets if isinstance(st, ast.Assign) else [st.target]
+            return all(isinstance(t, ast.Name) for t in tg) and (st.value is None or safe_expr(st.value))
+        if isinstance(st, ast.If):
+            return safe_expr(st.test) and all(safe_stmt(x) for x in st.body + st.orelse)
+        if isinstance(st, ast.For):
+            return safe_expr(st.iter) and all(safe_stmt(x) for x in st.body + st.orelse)
+        if isinstance(st, ast.Pass):
+            return True
+        if isinstance(st, ast.Return):
+            return st.value is None or safe_expr(st.value)
+        return False
+    for st in h.body:
+        if not safe_stmt(st):
+            return ast.unparse(st).splitlines()[0][:120]
+    return None
+
+
+RUNMODE_REPLAY = lambda w: {"code": """
+import tempfile, pathlib, warnings, verif_probes as VP, pyxel
+from pyxel.exposure import Readout
+from pyxel.observation import Observation, ParameterValues
+from pyxel.outputs import ObservationOutputs
+from pyxel.pipelines import DetectionPipeline, ModelFunction
+warnings.simplefilter('ignore')
+VIOLATED, DETAIL = False, 'the failing model error reaches the caller of run_mode unchanged, whatever was written before'
+for values in ([1, 2, 3], [1, 3, 2], [2, 1]):          # the probe fails at level 2: in the 2nd, 3rd or 1st run
+    root = pathlib.Path(tempfile.mkdtemp())
+    pipe = DetectionPipeline(photon_collection=[ModelFunction(func='verif_probes.writer', name='w', arguments={'photon': 3.0})],
+                             charge_generation=[ModelFunction(func='verif_probes.fail_if', name='bad', arguments={'level': 0})])
+    obs = Observation(parameters=[ParameterValues(key='pipeline.charge_generation.bad.arguments.level', values=values)], readout=Readout(times=[1.0]),
+                      outputs=ObservationOutputs(output_folder=root, save_data_to_file=[{'detector.photon.array': ['npy']}]))
+    try:
+        pyxel.run_mode(mode=obs, detector=VP.detector(), pipeline=pipe)
+        VIOLATED, DETAIL = True, f'sweep {values}: run_mode returned normally'
+    except VP.ProbeError as e:
+        notes = ' '.join(getattr(e, '__notes__', []))
+        if 'charge_generation' not in notes or 'bad' not in notes:
+            VIOLATED, DETAIL = True, f'sweep {values}: note lacks group / model: {notes!r}'
+    except Exception as e:
+        VIOLATED, DETAIL = True, f'sweep {values} ({values.index(2)} run(s) had written their files before the failure): the caller gets {type(e).__name__}: {e} instead of the model error'
+    if VIOLATED: break
+""", "expect": "run_mode lets the failing model's exception through also when earlier runs have already written output files"}
+STANDIN = {r"no_swallow": RUNMODE_REPLAY}
+
+
 @unit("C09", "no_swallow")
 def no_swallow(u: Unit):
     """On every path from a model call to the caller of run_mode: no `except` clause that can catch a model's
@@ -153,6 +221,11 @@ def no_swallow(u: Unit):
                         u.static(f"no_swallow[{fn.qualname.split('::')[1]}:{h.lineno}]", ok, fn.qualname,
                                  f"except {', '.join(tnames)} around {inner}() at line {h.lineno} " + ("re-raises the same object" if ok else "does not end with a bare raise"),
                                  witness={"function": fn.qualname, "line": h.lineno}, replay=SINGLE_REPLAY)
+                        odd = handler_can_only_reraise(h) if ok else None
+                        if odd is not None:
+                            # work done in the handler before the re-raise may itself raise and replace the model's exception: not decided on
+                            # the syntax alone -> undecided, the native stand-in (a failure after files were written) decides
+                            u.undecide(f"no_swallow.handler_cannot_fail[{fn.qualname.split('::')[1]}:{h.lineno}]", fn.qualname, f"statement in the handler outside the harmless fragment: {odd}")
                 if isinstance(n, ast.With):
                     for it in n.items:
                         src = ast.unparse(it.context_expr)
